@@ -102,6 +102,11 @@ func (m *FlowMon) OnEvent(c *eng.Ctx, ms eng.MState, ev *eng.Event) eng.MState {
 		}
 		// routing decisions after a child run may depend only on the child's error,
 		// the context, and the two-level lookup of (node, action)
+		if m.hookPresenceTest(ev.Cond) {
+			// "is the optional hook set?": configuration of the flow, not a routing input; what runs
+			// next is still decided at the next child run / return
+			break
+		}
 		if !m.allowedCond(c, s, ev.Cond, T) {
 			chk("C03.R3", "routing-decision", false, "after a node finished, what runs next depends on "+ev.Cond.Pretty()+", which is not a function of the connection table entry for (that node, its action)")
 		} else {
@@ -148,6 +153,12 @@ func (m *FlowMon) OnEvent(c *eng.Ctx, ms eng.MState, ev *eng.Event) eng.MState {
 			s.prevAct, s.prevErr = ev.Results[0], ev.Results[1]
 			s.obs, s.cut = nil, false
 		default:
+			if m.hookCall(s, ev, T) {
+				// an optional function-typed field of the flow (observer / hook) called with nodes of the
+				// path only: user code, not a node
+				chk("C03.R4", "hook-call", true, "")
+				break
+			}
 			if strings.HasPrefix(ev.Class, "cb:") || strings.HasPrefix(ev.Class, "dyn:") || strings.HasPrefix(ev.Class, "field:") || strings.HasPrefix(ev.Class, "invoke:") {
 				chk("C03.R4", "other-call", false, "running a flow invokes "+ev.Class+" directly: only Run(current) may touch nodes")
 			}
@@ -156,6 +167,62 @@ func (m *FlowMon) OnEvent(c *eng.Ctx, ms eng.MState, ev *eng.Event) eng.MState {
 		m.onReturn(c, s, ev, T)
 	}
 	return s
+}
+
+// flowHookField: the term is the content of a function-typed field of the flow being run.
+func (m *FlowMon) flowHookField(t *eng.Term) bool {
+	if t == nil || t.K != eng.KLoad || t.A[0].K != eng.KFieldAddr || t.A[0].A[0] != m.Recv || m.R.Flow == nil {
+		return false
+	}
+	st, ok := m.R.Flow.Underlying().(*types.Struct)
+	if !ok || int(t.A[0].I) >= st.NumFields() {
+		return false
+	}
+	_, isFunc := st.Field(int(t.A[0].I)).Type().Underlying().(*types.Signature)
+	return isFunc
+}
+
+// hookPresenceTest: the condition is a nil test of a function-typed field of the flow.
+func (m *FlowMon) hookPresenceTest(cond *eng.Term) bool {
+	for cond.K == eng.KNot {
+		cond = cond.A[0]
+	}
+	if cond.K != eng.KBin || (cond.S != "==" && cond.S != "!=") {
+		return false
+	}
+	x, y := cond.A[0], cond.A[1]
+	return (m.flowHookField(x) && y.K == eng.KNil) || (m.flowHookField(y) && x.K == eng.KNil)
+}
+
+// hookCall: a call of a function-typed field of the flow whose node-typed arguments are nodes of
+// the path (the node that just ran, its successor by the table, or the start node).
+func (m *FlowMon) hookCall(s flowState, ev *eng.Event, T *eng.Term) bool {
+	if !m.flowHookField(ev.FnTerm) || m.R.Node == nil {
+		return false
+	}
+	ci, ok := ev.Instr.(ssa.CallInstruction)
+	if !ok {
+		return false
+	}
+	iface, _ := m.R.Node.Underlying().(*types.Interface)
+	for i, a := range ci.Common().Args {
+		if i >= len(ev.Args) {
+			break
+		}
+		isNode := types.Identical(a.Type(), m.R.Node) || (iface != nil && types.Implements(a.Type(), iface))
+		if !isNode {
+			continue
+		}
+		t := ev.Args[i]
+		on := t == m.startTerm()
+		if s.n > 0 {
+			on = on || t == s.prevNode || t == eng.Lookup(eng.Lookup(T, s.prevNode), s.prevAct)
+		}
+		if !on {
+			return false
+		}
+	}
+	return true
 }
 
 func descAddr(ev *eng.Event) string {
